@@ -131,7 +131,7 @@ theorem calls_defined (env : NsEnv) (henv : EnvOK env) (d : Option Str) (c : Con
         simp only [attrNameOK, Bool.and_eq_true] at this
         cases h1 : e.1.1 with
         | none => rfl
-        | some u => rw [h1] at this; simp only [Bool.and_eq_true] at this; exact this.2.1
+        | some u => rw [h1] at this; exact this.2
       obtain ⟨cs, hcs⟩ := ih.1 _ true hflush hok.2 hsh
       rw [hcs]
       exact ⟨_, rfl⟩
@@ -169,7 +169,7 @@ theorem calls_defined (env : NsEnv) (henv : EnvOK env) (d : Option Str) (c : Con
       simp only [attrNameOK, Bool.and_eq_true] at this
       cases h1 : e.1.1 with
       | none => rfl
-      | some u => rw [h1] at this; simp only [Bool.and_eq_true] at this; exact this.2.1
+      | some u => rw [h1] at this; exact this.2
     have hsh' : shapeOK false (.child q attrs kids rest) = true := by
       simpa [shapeOK] using hsh
     obtain ⟨inner, hinner⟩ := hcontent _ false hflush hok hsh'
